@@ -197,7 +197,26 @@ def run_cauchy_case(case):
             continue
         if got != want:
             fails.append(dict(what="cauchy_dot_product element %s differs from the dense Cauchy sum" % (list(idx),), input=case, index=list(idx), expected=want, observed=got))
+    # the factors must be unchanged by the requests: every stored element still equals the value it
+    # was created with (the table is the deep copy taken before)
+    if not case.get("forbidden"):
+        for f, tab in enumerate(case["tables"]):
+            for k, v in tab:
+                try:
+                    now = factors[f][tuple(k)]
+                    same = (v in ("zero", "one") and _elem_kind(now) == v) or (v not in ("zero", "one") and _elem_kind(now) == "val" and m_from_impl(now) == m_of(v))
+                except BaseException as e:  # noqa: BLE001
+                    same, now = False, type(e).__name__
+                if not same:
+                    fails.append(dict(what="element %s of factor %d was modified by evaluating the product" % (list(k), f), input=case, index=None, factor=f, element=list(k), expected=v, observed=str(now)[:200]))
+                    break
     return fails
+
+
+def _elem_kind(x):
+    from pymablock.series import zero, one
+
+    return "zero" if x is zero else "one" if x is one else "val"
 
 
 def rand_val(rng, small=2):
@@ -254,6 +273,21 @@ def gen_cauchy_case(rng, kind):
         t0 = table(dims[0], dims[1])
         t1 = {(k, i) + tuple(o): (adj_val(v) if isinstance(v, list) else v) for (i, k, *o), v in t0.items()}
         tables = [t0, t1]
+    elif kind == "unitary":
+        # the U / U^dagger pattern: `one` on the diagonal blocks at order zero, zero off the diagonal,
+        # numpy arrays at higher orders; (A^dagger, A) or (A, A^dagger), hermitian=True (legitimate:
+        # the factors are exact adjoints; no element needs `one + x`); ALL elements requested on one
+        # product object in order of increasing total order
+        nfac, herm = 2, True
+        if sum(N) < 2:
+            N[0] = max(N[0], 2)
+            orders = all_orders(N)
+        p = rng.randint(1, 3)
+        dims = [p, p, p]
+        p_zero = rng.choice([0.0, 0.0, 0.3])
+        t0 = table(p, p, identity0=True)
+        t1 = {(k, i) + tuple(o): (adj_val(v) if isinstance(v, list) else v) for (i, k, *o), v in t0.items()}
+        tables = [t1, t0] if rng.random() < 0.5 else [t0, t1]
     elif kind == "herm_sandwich":  # (A, H, A^dagger) with H Hermitian: wrapper only
         nfac, herm = 3, True
         p, q = rng.randint(1, 3), rng.randint(1, 2)
@@ -284,6 +318,11 @@ def gen_cauchy_case(rng, kind):
         known.append([list(k) for k in t if rng.random() < 0.3])
     req = [(i, j) + o for i in range(dims[0]) for j in range(dims[-1]) for o in orders]
     rng.shuffle(req)
+    if kind == "unitary":
+        req.sort(key=lambda r: sum(r[2:]))
+        nreq = len(req)
+    else:
+        nreq = rng.randint(3, 12)
     return dict(
         kind=kind,
         nparam=nparam,
@@ -293,7 +332,7 @@ def gen_cauchy_case(rng, kind):
         operator=operator,
         tables=[[[list(k), v] for k, v in t.items()] for t in tables],
         known=known,
-        requests=[list(r) for r in req[: rng.randint(3, 12)]],
+        requests=[list(r) for r in req[:nreq]],
     )
 
 
@@ -533,7 +572,7 @@ def oracle_cauchy(ctx, ncases=None):
     dist = {}
     nontrivial = set()
     cases = [witness_case()] + witness_one_cases()
-    kinds = ["plain"] * 5 + ["herm_adjoint"] * 2 + ["herm_sandwich"] * 2 + ["herm_commuting", "lazy"]
+    kinds = ["plain"] * 5 + ["herm_adjoint"] * 2 + ["herm_sandwich"] * 2 + ["unitary"] * 2 + ["herm_commuting", "lazy"]
     for _ in range(n):
         k = rng.choice(kinds)
         cases.append(lazy_case(rng) if k == "lazy" else gen_cauchy_case(rng, k))
@@ -864,7 +903,116 @@ def run_protocol_case(case):
     return fails
 
 
+def gen_dependency_case(rng):
+    """One or two series whose elements are defined through OTHER elements of the same series (or
+    of each other): value = tag + sum of the values of its dependencies.  direction 'forward': the
+    dependencies come later in C order (they get evaluated and cached while an earlier element of
+    the same multi-element request is being evaluated), 'backward': earlier.  Acyclic by
+    construction (strict order on (index, series)), so every element has a value."""
+    shape = rng.choice([(), (), (2,), (2,), (3,), (2, 2)])
+    ninf = rng.choice([1, 1, 1, 2])
+    N = {1: rng.choice([3, 4, 5]), 2: 2}[ninf]
+    nser = rng.choice([1, 1, 2])
+    direction = rng.choice(["forward", "forward", "backward"])
+    idxs = list(itertools.product(*([range(d) for d in shape] + [range(N + 1)] * ninf)))
+    nodes = [(i, b) for i in idxs for b in range(nser)]
+    p_dep = rng.choice([0.5, 0.8, 1.0])
+    tables = [[] for _ in range(nser)]
+    tag = 1
+    for (i, b) in nodes:
+        cand = [n for n in nodes if (n > (i, b) if direction == "forward" else n < (i, b))]
+        deps = []
+        if cand and rng.random() < p_dep:
+            cand.sort(key=lambda n: sum(abs(x - y) for x, y in zip(n[0], i)) + (0 if n[1] == b else 0.5))
+            pool = cand[:4]
+            for _ in range(rng.choice([1, 1, 2])):
+                n = rng.choice(pool)
+                deps.append([n[1], list(n[0])])
+        tables[b].append([list(i), tag, deps])
+        tag += rng.randint(1, 3)
+    reqs = []
+    for _ in range(rng.randint(1, 3)):
+        item = []
+        for d in shape:
+            item.append(rng.choice([["slice", None, None, None], ["slice", None, None, None], list(range(d)), rng.randrange(d)]))
+        for _ in range(ninf):
+            r = rng.random()
+            if r < 0.6:
+                item.append(["slice", rng.choice([None, 0, 0, 1]), rng.randint(2, N + 1), None])
+            elif r < 0.85:
+                item.append(sorted(rng.sample(range(N + 1), rng.randint(2, min(3, N + 1)))))
+            else:
+                item.append(rng.randint(0, N))
+        lists = [k for k, e in enumerate(item) if isinstance(e, list) and not _is_slice(e)]
+        if len(lists) > 1:  # keep at most one list so that broadcasting cannot fail
+            for k in lists[1:]:
+                item[k] = ["slice", None, (None if k < len(shape) else N + 1), None]
+        reqs.append([rng.randrange(nser), item])
+    return dict(kind="dependency", shape=list(shape), ninf=ninf, N=N, direction=direction, tables=tables, requests=reqs)
+
+
+def run_dependency_case(case):
+    from pymablock.series import BlockSeries
+
+    fails = []
+    shape, ninf = tuple(case["shape"]), case["ninf"]
+    tabs = [{tuple(i): (tag, [(b, tuple(j)) for b, j in deps]) for i, tag, deps in t} for t in case["tables"]]
+    # cache-free reference
+    memo = {}
+
+    def ref(b, i):
+        if (b, i) not in memo:
+            tag, deps = tabs[b][i]
+            memo[(b, i)] = tag + sum(ref(b2, j) for b2, j in deps)
+        return memo[(b, i)]
+
+    calls = []
+    series = []
+
+    def make(b):
+        def ev(*index):
+            i = tuple(int(x) for x in index)
+            calls.append((b, i))
+            tag, deps = tabs[b][i]
+            return tag + sum(series[b2][j] for b2, j in deps)
+
+        return BlockSeries(eval=ev, shape=shape, n_infinite=ninf)
+
+    for b in range(len(tabs)):
+        series.append(make(b))
+    for b, item in case["requests"]:
+        pit = _py_item(item)
+        D = np.empty(shape + (case["N"] + 1,) * ninf, dtype=object)
+        for i in itertools.product(*(range(d) for d in D.shape)):
+            D[i] = ref(b, i)
+        want = D[pit]
+        try:
+            got = series[b][pit]
+        except BaseException as e:  # noqa: BLE001
+            fails.append(dict(what="request on a well-founded self-referential series raised %s" % type(e).__name__, input=case, item=item, observed=type(e).__name__))
+            continue
+        g = [int(x) for x in np.asarray(np.ma.getdata(got)).reshape(-1)] if isinstance(got, np.ndarray) else [int(got)]
+        w = [int(x) for x in np.asarray(want).reshape(-1)]
+        if g != w or tuple(np.shape(got)) != tuple(np.shape(want)):
+            fails.append(dict(what="values of a self-referential series differ from the cache-free reference", input=case, item=item, expected=w, observed=g))
+        dup = sorted({c for c in calls if calls.count(c) > 1})
+        if dup:
+            fails.append(
+                dict(
+                    what="element evaluated more than once while cached (no pop, no exception): %s"
+                    % [[b2, list(i), calls.count((b2, i))] for b2, i in dup[:4]],
+                    input=case,
+                    item=item,
+                    observed=[[b2, list(i), calls.count((b2, i))] for b2, i in dup],
+                )
+            )
+            break
+    return fails
+
+
 def gen_protocol_case(rng):
+    if rng.random() < 0.45:
+        return gen_dependency_case(rng)
     shape = rng.choice([(), (2,), (2, 2), (2, 3)])
     ninf = rng.choice([1, 1, 2])
     kind = rng.choice(["indexerror", "indexerror", "recursion", "cleanup"])
@@ -892,7 +1040,11 @@ def gen_protocol_case(rng):
 
 
 def run_c19_case(case):
-    return run_getitem_case(case) if case["kind"] == "numpy" else run_protocol_case(case)
+    if case["kind"] == "numpy":
+        return run_getitem_case(case)
+    if case["kind"] == "dependency":
+        return run_dependency_case(case)
+    return run_protocol_case(case)
 
 
 def oracle_getitem(ctx, ncases=None):
@@ -902,7 +1054,7 @@ def oracle_getitem(ctx, ncases=None):
     nontrivial = set()
     evaluations = 0
     for k in range(n):
-        case = gen_getitem_case(rng) if rng.random() < 0.75 else gen_protocol_case(rng)
+        case = gen_getitem_case(rng) if rng.random() < 0.65 else gen_protocol_case(rng)
         try:
             f = run_c19_case(case)
         except Exception as e:  # noqa: BLE001
